@@ -441,6 +441,44 @@ impl<'tcx> Cx<'tcx> {
             }
         }
         if tag == "opaque" {
+            // `&[u8; N]` byte strings (e.g. format templates): emit the bytes as a hex string.
+            if let ty::Ref(_, inner, _) = ty.kind() {
+                let is_bytes = match inner.kind() {
+                    ty::Array(e, _) | ty::Slice(e) => *e == tcx.types.u8,
+                    _ => false,
+                };
+                if is_bytes {
+                    if let Ok(v) = c.eval(tcx, env, rustc_span::DUMMY_SP) {
+                        let mut bytes: Option<Vec<u8>> = None;
+                        if let rustc_middle::mir::ConstValue::Slice { .. } = v {
+                            if let Some(b) = v.try_get_slice_bytes_for_diagnostics(tcx) {
+                                bytes = Some(b.to_vec());
+                            }
+                        } else if let rustc_middle::mir::ConstValue::Scalar(
+                            rustc_middle::mir::interpret::Scalar::Ptr(ptr, _),
+                        ) = v
+                        {
+                            let (prov, off) = ptr.into_raw_parts();
+                            if let Some(rustc_middle::mir::interpret::GlobalAlloc::Memory(a)) =
+                                tcx.try_get_global_alloc(prov.alloc_id())
+                            {
+                                let a = a.inner();
+                                let start = off.bytes() as usize;
+                                let all = a.inspect_with_uninit_and_ptr_outside_interpreter(0..a.len());
+                                if start <= all.len() {
+                                    bytes = Some(all[start..].to_vec());
+                                }
+                            }
+                        }
+                        if let Some(b) = bytes {
+                            let hex: String = b.iter().map(|x| format!("{:02x}", x)).collect();
+                            return J::A(vec![s("k"), s("bytes"), s(hex), s(format!("{}", ty))]);
+                        }
+                    }
+                }
+            }
+        }
+        if tag == "opaque" {
             let mut d = format!("{}", c);
             if d.len() > 200 {
                 d.truncate(200);
